@@ -83,6 +83,8 @@ func ReplayPath() string { return os.Getenv("VERIF_REPLAY") }
 
 // LoadReplay decodes the replay artefact (the "replay" member written by the driver).
 func LoadReplay(v any) error {
+	// a replayed case can freeze the process just like the original did: arm the stall watchdog
+	beat()
 	b, err := os.ReadFile(ReplayPath())
 	if err != nil {
 		return err
@@ -339,6 +341,9 @@ var (
 func beat() {
 	lastBeat.Store(time.Now().UnixNano())
 	watchOnce.Do(func() {
+		if v, err := strconv.Atoi(os.Getenv("VERIF_STALL_S")); err == nil && v > 0 {
+			StallSeconds = time.Duration(v)
+		}
 		go func() {
 			for {
 				time.Sleep(5 * time.Second)
